@@ -190,6 +190,16 @@ def run_config(ctx, cfg):
     for i in range(D):
         for j in range(D):
             ctx.eq("rho/partial-trace[%d,%d]" % (i, j), rho._arr[0, i, j] + I * rho._arr[1, i, j], RS[i][j], z3_confirm=False)
+    # whether the two arguments are one tensor object or two equal ones makes no difference, in either call form
+    rho2 = state.rho(space, space.clone())
+    ctx.eq_arrays("rho/full: the same tensor object as both arguments == two equal tensors", rho, rho2, z3_confirm=False)
+    pd1, pd2 = state.rho(space, space, expand=False), state.rho(space, space.clone(), expand=False)
+    for i in range(D):
+        ctx.eq("rho/paired with the same tensor object as both arguments[row=%d]" % i, pd1._arr[0, i] + I * pd1._arr[1, i], RS[i][i], z3_confirm=False)
+        ctx.eq("rho/paired with two equal tensors[row=%d]" % i, pd2._arr[0, i] + I * pd2._arr[1, i], RS[i][i], z3_confirm=False)
+    isn_same = state.importance_sampling_numerator(space, space)
+    for i in range(D):
+        ctx.eq("importance_sampling_numerator/same tensor object as both arguments[row=%d]" % i, isn_same._arr[0, i] + I * isn_same._arr[1, i], RS[i][i], z3_confirm=False)
     rho_d = state.rho(space)                     # vp=None, expand=True -> full matrix
     ctx.eq_arrays("rho/vp-None-is-full-matrix", rho_d, rho, z3_confirm=False)
     flip = torch.flip(space, [0])
